@@ -1691,4 +1691,40 @@ theorem buildCore_names (g : Gen) (env : Env) (srcs' : List Src) (jgs : List (Jo
     have hs4 := applyStars_names env _ projsD hD' hstar
     rw [qualifyOutputs_names g.colName projsD 0 s.outer hstar, hs4, hs3, hs1]
 
+/-! ## lexical CTE visibility: siblings are independent when `branch` copies -/
+
+theorem cbranch_copy (st : CState) (p : Nat) (extra : CteEnv) (ps : CScope) (hp : st.scopes[p]? = some ps) :
+    cbranch true st p extra =
+      { envs := st.envs ++ [extra ++ st.env ps.ref],
+        scopes := st.scopes ++ [⟨st.envs.length, extra ++ st.env ps.ref⟩] } := by
+  simp [cbranch, hp]
+
+/-- a sibling branched after another sibling's nested WITH was processed sees exactly what the parent saw before -/
+theorem sibling_independent (st : CState) (p : Nat) (extra defs : CteEnv) (n : String) (ps : CScope)
+    (hp : st.scopes[p]? = some ps) (href : ps.ref < st.envs.length) :
+    cresolve (cbranch true (cupdate (cbranch true st p extra) st.scopes.length defs) p []) (st.scopes.length + 1) n
+      = (st.env ps.ref).lookup n := by
+  have hplt : p < st.scopes.length := by
+    rcases Nat.lt_or_ge p st.scopes.length with h | h
+    · exact h
+    · rw [List.getElem?_eq_none h] at hp; simp at hp
+  rw [cbranch_copy st p extra ps hp]
+  have hc1 : (st.scopes ++ [(⟨st.envs.length, extra ++ st.env ps.ref⟩ : CScope)])[st.scopes.length]?
+      = some ⟨st.envs.length, extra ++ st.env ps.ref⟩ := by simp
+  simp only [cupdate, hc1]
+  have hp2 : ((st.scopes ++ [(⟨st.envs.length, extra ++ st.env ps.ref⟩ : CScope)]).set st.scopes.length
+      ⟨st.envs.length, defs ++ (extra ++ st.env ps.ref)⟩)[p]? = some ps := by
+    rw [List.getElem?_set_ne (by omega)]
+    rw [List.getElem?_append_left hplt]
+    exact hp
+  rw [cbranch_copy _ p [] ps hp2]
+  have henv : ∀ (x : CteEnv) (sc : List CScope),
+      CState.env { envs := (st.envs ++ [extra ++ st.env ps.ref]).set st.envs.length x, scopes := sc } ps.ref
+        = st.env ps.ref := by
+    intro x sc
+    simp only [CState.env, List.getD_eq_getElem?_getD]
+    rw [List.getElem?_set_ne (by omega), List.getElem?_append_left href]
+  simp only [cresolve, List.nil_append, henv, List.length_set, List.length_append, List.length_cons, List.length_nil]
+  simp
+
 end SqlglotModel.Qualify
